@@ -109,7 +109,9 @@ pub fn perf_json(p: &Performative, dir: Dir, sh: &Shifts, eut_is_sender: impl Fn
                    "snd": u8::from(a.snd_settle_mode.clone()), "rcv": u8::from(a.rcv_settle_mode.clone()),
                    "src": a.source.is_some(), "tgt": a.target.is_some(), "coord": matches!(a.target.as_deref(), Some(TargetArchetype::Coordinator(_))),
                    "idc": oo(a.initial_delivery_count, dcs), "mms": a.max_message_size.map(cap).unwrap_or(-1),
-                   "unsettled": a.unsettled.as_ref().map(|u| u.len() as i64).unwrap_or(-1)})
+                   "unsettled": a.unsettled.as_ref().map(|u| u.len() as i64).unwrap_or(-1),
+                   // the unsettled map itself (at most 16 entries): tag and state kind ("null" for an entry without a state)
+                   "unsl": a.unsettled.as_ref().map(|u| u.iter().take(16).map(|(t, st)| json!({"tag": t.to_vec(), "k": match st { None => "null".to_string(), Some(_) => state_json(st)["k"].as_str().unwrap_or("none").to_string() }})).collect::<Vec<_>>()).unwrap_or_default()})
         }
         Performative::Flow(f) => {
             let dcs = match f.handle.as_ref() { Some(h) => if eut_is_sender(h.0) { sh.dc_out } else { sh.dc_in }, None => 0 };
